@@ -5,7 +5,7 @@ ROOT = os.path.dirname(os.path.dirname(os.path.abspath(__file__)))
 
 CHECKS = {
  "C08": dict(cat="model_checking",
-   text="Batching rules (group/batch caps, immediate placement, decode round trip, greedy boundaries) are TLC invariants checked over every push/non-push pattern (reduced constants to length 14, real constants to 14); every pattern to length 11 (quick) / 15 (thorough) plus random sequences over all span operations are replayed on the real Span::new and compared in every field, and the span hash must be HashElems of the specification's groups; opcode table of the docs compared with Operation::op_code.",
+   text="Batching rules (group/batch caps, immediate placement, decode round trip, greedy boundaries) are TLC invariants checked over every push/non-push pattern (reduced constants to length 14, real constants to 14); every pattern to length 11 (quick) / 15 (thorough) plus random sequences over all span operations are replayed on the real Span::new and compared in every field, and the span hash must be HashElems of the specification's groups; opcode table of the docs compared with Operation::op_code. Mast.tla gives the hash recipe of every node kind (hash_domain(children) with the domain = the opcode starting the block, loop / call / syscall with a zero second word, dyn a constant); it is evaluated with the primitives on every node of assembled programs of every control-flow shape and compared with CodeBlock::hash, Program::hash and the trace's program hash; metamorphic pairs: layout, debug mode, decorators and procedure names do not change the hash, a changed operation, immediate or branch order does.",
    note="Trusted: miden-crypto RPO primitives (hash_elements / merge_in_domain) as the definition of the hash; TLC; the docs as source of the rules.",
    tech="TLA+ spec (SpanBatch, Mast) model-checked with TLC; TLC-generated behaviours replayed on the implementation", ref="DESIGN.md §4 C08"),
  "C05": dict(cat="model_checking",
